@@ -8,6 +8,8 @@
   Proof module (Mathlib tactics over ℚ); the model and the integer lemmas are core Lean.
 -/
 import Gedcom.Props.C05Float
+import Gedcom.Model.Float64Jaro
+import Gedcom.Lemmas.JaroSymm
 namespace Gedcom.C12F
 open Gedcom Gedcom.F64 Gedcom.C05
 
@@ -289,5 +291,164 @@ theorem simOfDist_zero (d m : Dbl) (hm : 0 < m.mant) (h : F64.le m d) :
       unfold F64.le one at hp1; simpa using hp1
     have : 2 ^ p.frac - p.mant = 0 := by omega
     unfold oneMinus; rw [this]; simp [rnd]
+
+/-! ### `jaro` on the float64 values -/
+
+theorem add_comm' (a b : Dbl) : add a b = add b a := by
+  unfold add
+  rw [Nat.add_comm (a.mant * 2 ^ b.frac), Nat.add_comm a.frac]
+
+theorem jaroValueF_comm (m h la lb : Nat) : jaroValueF m h la lb = jaroValueF m h lb la := by
+  unfold jaroValueF
+  simp only []
+  rw [add_comm' (div (ofNat m) (ofNat la))]
+
+/-- **Operand order**: the float64 Jaro value is the same in both directions, bit for bit (the
+    matching is symmetric — `jaro_symm` — and float64 addition is commutative) -/
+theorem jaroF_symm (a b : Str) : jaroF a b = jaroF b a := by
+  have h1 := Sim.jaroFinal_pairs a b
+  have h2 := Sim.jaroFinal_pairs b a
+  have hp := Sim.jaroPairs_swap a b
+  unfold jaroF
+  simp only
+  rw [h1.1, h1.2, h2.1, h2.2, hp.length_eq, List.length_map]
+  have : Sim.offDiag (Sim.jaroPairs b a) = Sim.offDiag (Sim.jaroPairs a b) := by
+    rw [← Sim.offDiag_swap (Sim.jaroPairs a b)]
+    unfold Sim.offDiag
+    exact hp.countP_eq _
+  rw [this]
+  exact jaroValueF_comm _ _ _ _
+
+/-- the value of a binary64 is at most the natural number `k` -/
+def leNat (x : Dbl) (k : Nat) : Prop := x.mant ≤ k * 2 ^ x.frac
+
+/-- a positive natural number below 2^53·… rounds to itself -/
+theorem rnd_nat (k : Nat) (hk : 0 < k) :
+    rnd k 1 = ⟨k * 2 ^ fracBits k 1, fracBits k 1⟩ := by
+  unfold rnd roundDiv
+  rw [if_neg (by omega)]
+  simp [Nat.mod_one]
+
+theorem rnd_leNat (n d k : Nat) (hd : 0 < d) (h : n ≤ k * d) : leNat (rnd n d) k := by
+  by_cases hk : k = 0
+  · subst hk
+    have : n = 0 := by omega
+    subst this; simp [rnd, leNat]
+  have hm := rnd_mono n d k 1 hd (by omega) (by simpa using h)
+  rw [rnd_nat k (by omega)] at hm
+  unfold F64.le at hm
+  simp only at hm
+  unfold leNat
+  have h2 : (rnd n d).mant * 2 ^ fracBits k 1 ≤ k * 2 ^ (rnd n d).frac * 2 ^ fracBits k 1 := by
+    calc (rnd n d).mant * 2 ^ fracBits k 1 ≤ k * 2 ^ fracBits k 1 * 2 ^ (rnd n d).frac := hm
+      _ = k * 2 ^ (rnd n d).frac * 2 ^ fracBits k 1 := by ring
+  exact Nat.le_of_mul_le_mul_right h2 (Nat.two_pow_pos _)
+
+theorem rnd_geNat (n d k : Nat) (hd : 0 < d) (h : k * d ≤ n) : k * 2 ^ (rnd n d).frac ≤ (rnd n d).mant := by
+  by_cases hk : k = 0
+  · subst hk; simp
+  have hm := rnd_mono k 1 n d (by omega) hd (by simpa using h)
+  rw [rnd_nat k (by omega)] at hm
+  unfold F64.le at hm
+  simp only at hm
+  have h2 : k * 2 ^ (rnd n d).frac * 2 ^ fracBits k 1 ≤ (rnd n d).mant * 2 ^ fracBits k 1 := by
+    calc k * 2 ^ (rnd n d).frac * 2 ^ fracBits k 1
+        = k * 2 ^ fracBits k 1 * 2 ^ (rnd n d).frac := by ring
+      _ ≤ (rnd n d).mant * 2 ^ fracBits k 1 := hm
+  exact Nat.le_of_mul_le_mul_right h2 (Nat.two_pow_pos _)
+
+theorem div_nat_leNat (m l : Nat) (hl : 0 < l) (h : m ≤ l) : leNat (div (ofNat m) (ofNat l)) 1 := by
+  unfold div ofNat
+  apply rnd_leNat _ _ _ (by simpa using hl)
+  simpa using h
+
+theorem add_leNat (a b : Dbl) (j k : Nat) (ha : leNat a j) (hb : leNat b k) :
+    leNat (add a b) (j + k) := by
+  unfold add
+  apply rnd_leNat _ _ _ (Nat.two_pow_pos _)
+  unfold leNat at ha hb
+  rw [Nat.pow_add]
+  calc a.mant * 2 ^ b.frac + b.mant * 2 ^ a.frac
+      ≤ j * 2 ^ a.frac * 2 ^ b.frac + k * 2 ^ b.frac * 2 ^ a.frac :=
+        Nat.add_le_add (Nat.mul_le_mul_right _ ha) (Nat.mul_le_mul_right _ hb)
+    _ = (j + k) * (2 ^ a.frac * 2 ^ b.frac) := by ring
+
+/-- **Bounds**: the float64 Jaro value lies in [0, 1] -/
+theorem jaroValueF_le_one (m h la lb : Nat) (ha : m ≤ la) (hb : m ≤ lb) :
+    leNat (jaroValueF m h la lb) 1 := by
+  unfold jaroValueF
+  split
+  · simp [leNat]
+  · rename_i hm
+    simp only []
+    have h1 := div_nat_leNat m la (by omega) ha
+    have h2 := div_nat_leNat m lb (by omega) hb
+    have h3 := div_nat_leNat (m - h / 2) m (by omega) (by omega)
+    have h4 := add_leNat _ _ 1 1 h1 h2
+    have h5 := add_leNat _ _ 2 1 h4 h3
+    generalize add (add (div (ofNat m) (ofNat la)) (div (ofNat m) (ofNat lb)))
+      (div (ofNat (m - h / 2)) (ofNat m)) = t at *
+    unfold div ofNat
+    apply rnd_leNat _ _ _ (by positivity)
+    unfold leNat at h5
+    simp only [Nat.pow_zero, Nat.mul_one, Nat.one_mul]
+    omega
+
+theorem jaroF_bounds (a b : Str) : F64.le ⟨0, 0⟩ (jaroF a b) ∧ F64.le (jaroF a b) one := by
+  refine ⟨zero_le _, ?_⟩
+  have hinv := Sim.jaroFinal_inv a b
+  have hb : (Sim.jaroFinal a b).nMatch ≤ b.length := by
+    rw [hinv.cnt, ← hinv.len]; exact List.count_le_length
+  have := jaroValueF_le_one (Sim.jaroFinal a b).nMatch (Sim.jaroFinal a b).nHalf a.length b.length
+    hinv.idx hb
+  unfold jaroF; simp only
+  unfold leNat at this
+  unfold F64.le one
+  simpa using this
+
+/-- **Identity**: a non-empty string compared with itself has float64 Jaro value exactly one -/
+theorem jaroF_self (a : Str) (h : a ≠ []) : F64.le one (jaroF a a) ∧ F64.le (jaroF a a) one := by
+  refine ⟨?_, (jaroF_bounds a a).2⟩
+  have hl := Sim.jaroLoop_self a (Sim.matchRange a.length a.length) [] a rfl
+  have hf : Sim.jaroFinal a a = ⟨List.replicate a.length true, a.length, 0⟩ := by
+    unfold Sim.jaroFinal Sim.jaroInit
+    simpa using hl
+  have hpos : 0 < a.length := List.length_pos_iff.mpr h
+  unfold jaroF
+  simp only [hf]
+  unfold jaroValueF
+  rw [if_neg (by omega)]
+  simp only [Nat.zero_div, Nat.sub_zero]
+  generalize a.length = l at *
+  -- every quotient l / l is at least one, the sum at least three, a third of it at least one
+  have q1 : 1 * 2 ^ (div (ofNat l) (ofNat l)).frac ≤ (div (ofNat l) (ofNat l)).mant := by
+    unfold div ofNat
+    apply rnd_geNat _ _ _ (by simpa using hpos)
+    simp
+  generalize div (ofNat l) (ofNat l) = x at *
+  have s2 : 2 * 2 ^ (add x x).frac ≤ (add x x).mant := by
+    unfold add
+    apply rnd_geNat _ _ _ (Nat.two_pow_pos _)
+    rw [Nat.pow_add]
+    calc 2 * (2 ^ x.frac * 2 ^ x.frac) = 1 * 2 ^ x.frac * 2 ^ x.frac + 1 * 2 ^ x.frac * 2 ^ x.frac := by ring
+      _ ≤ x.mant * 2 ^ x.frac + x.mant * 2 ^ x.frac :=
+        Nat.add_le_add (Nat.mul_le_mul_right _ q1) (Nat.mul_le_mul_right _ q1)
+  generalize add x x = y at *
+  have s3 : 3 * 2 ^ (add y x).frac ≤ (add y x).mant := by
+    unfold add
+    apply rnd_geNat _ _ _ (Nat.two_pow_pos _)
+    rw [Nat.pow_add]
+    calc 3 * (2 ^ y.frac * 2 ^ x.frac)
+        = 2 * 2 ^ y.frac * 2 ^ x.frac + 1 * 2 ^ x.frac * 2 ^ y.frac := by ring
+      _ ≤ y.mant * 2 ^ x.frac + x.mant * 2 ^ y.frac :=
+        Nat.add_le_add (Nat.mul_le_mul_right _ s2) (Nat.mul_le_mul_right _ q1)
+  generalize add y x = t at *
+  have fin : 1 * 2 ^ (div t (ofNat 3)).frac ≤ (div t (ofNat 3)).mant := by
+    unfold div ofNat
+    apply rnd_geNat _ _ _ (by positivity)
+    simp only [Nat.pow_zero, Nat.mul_one, Nat.one_mul]
+    omega
+  unfold F64.le one
+  simpa using fin
 
 end Gedcom.C12F
